@@ -226,5 +226,264 @@ def _writer_one(chk, func, pi, path, out, cur):
     chk.samples.append({"path": pid, "shape": shape}) if len(chk.samples) < 12 else None
 
 
+
+
+# ============================================================================ Part 2: routing obligations
+from props import routine_world as rw
+from props import uf_world as uw
+
+UN = "typelib.unmarshals.routines"
+UTC = datetime.timezone.utc
+
+
+def exp_call(name, args, kwargs=None):
+    """The uninterpreted application the uf-world produces for `name(*args, **kwargs)`."""
+    kwargs = kwargs or {}
+    ks = sorted(kwargs)
+    full = name + ("" if not ks else "[" + ",".join(ks) + "]")
+    terms = [uw.lower(a) for a in args] + [uw.lower(kwargs[k]) for k in ks]
+    return uw.uf(full, len(terms))(*terms)
+
+
+def attr(name, obj_term):
+    from pyvc.core import attr_uf
+    return attr_uf(name)(obj_term)
+
+
+def temporal_interp():
+    I = uw.make_interp()
+    # datetime.timedelta.__floordiv__(td, timedelta(microseconds=1)): the exact microsecond count (datetime contract)
+    def floordiv(I, path, a, k):
+        if len(a) == 2 and isinstance(a[1], datetime.timedelta) and a[1] == datetime.timedelta(microseconds=1):
+            return SV(uw.uf("exact_microseconds", 1)(to_val(a[0])))
+        return _MISSING
+    I.builtin_models[datetime.timedelta.__floordiv__] = floordiv
+    I.builtin_models[datetime.timedelta] = lambda I, path, a, k: (uw.call_uf(I, path, "datetime.timedelta", a, k, may_raise=True,
+                                                                             result_cls=cls_const(datetime.timedelta))
+                                                                  if any(isinstance(x, (SV, SInt)) for x in list(a) + list(k.values())) else _MISSING)
+    I.builtin_models[datetime.datetime] = lambda I, path, a, k: (uw.call_uf(I, path, "datetime.datetime", a, k, may_raise=True,
+                                                                            result_cls=cls_const(datetime.datetime))
+                                                                 if any(not isinstance(x, (int, datetime.tzinfo)) for x in list(a) + list(k.values())) else _MISSING)
+    return I
+
+
+def _self(I, path, clsname, T):
+    t = SCls(T)
+    return rw.routine_self(I, UN, clsname, {"t": t, "origin": t, "context": rw.Ctx(path.fresh("ctx")), "var": None})
+
+
+def timedelta_unmarshaller(chk):
+    I = temporal_interp()
+    func = f"{UN}.TimeDeltaUnmarshaller.__call__"
+
+    def mk(I, path):
+        for k in (int, float, str, datetime.timedelta):
+            cls_const(k)
+        T = path.fresh("T", Cls)
+        path.assume(sub(T, cls_const(datetime.timedelta)))
+        val = path.fresh("val")
+        return [_self(I, path, "TimeDeltaUnmarshaller", T), SV(val)], {}, {"T": T, "val": val}
+    results = I.run_function(func, mk)
+    for pi, (path, out, obls, writes, cur) in enumerate(results):
+        _td_one(chk, func, pi, path, out, cur)
+    chk.trusted.update(I.assumed_used)
+
+
+def _td_one(chk, func, pi, path, out, cur):
+    pid, hy = f"p{pi}", path.hyps + class_axioms()
+    T, val = cur["T"], cur["val"]
+    names = ["a-number-is-read-as-exactly-that-many-seconds", "a-parsed-duration-is-rebuilt-from-its-exact-microsecond-count",
+             "text-is-parsed-as-a-duration"]
+    if out.kind == "unsupported":
+        for nm in names:
+            chk.add(Ob(func, nm, pid, hy, z3.BoolVal(False), {"engine": out.value}))
+        return
+    if out.kind != "ret":
+        for nm in names:
+            chk.add(Ob(func, nm, pid, hy, z3.BoolVal(True), {"trivial": True}))
+        return
+    r = to_val(out.value)
+    is_num = z3.Or(sub(cls_of(val), cls_const(int)), sub(cls_of(val), cls_const(float)))
+    Tv = SCls(T)
+    chk.add(Ob(func, names[0], pid, hy + [is_num], r == exp_call("construct", [Tv], {"seconds": SV(val)})))
+    decoded = rw.decode_f(val)
+    is_text = cls_of(decoded) == cls_const(str)
+    parsed = exp_call("serdes.dateparse", [SV(decoded)], {"t": datetime.timedelta})
+    td = z3.If(is_text, parsed, decoded)
+    chk.add(Ob(func, names[2], pid, hy + [z3.Not(is_num), is_text],
+               z3.Or(r == parsed, r == exp_call("construct", [Tv], {"microseconds": SV(uw.uf("exact_microseconds", 1)(parsed))}))))
+    chk.add(Ob(func, names[1], pid, hy + [z3.Not(is_num)],
+               z3.Or(z3.And(r == td, cls_of(td) == T),
+                     z3.And(cls_of(td) != T, r == exp_call("construct", [Tv], {"microseconds": SV(uw.uf("exact_microseconds", 1)(td))})))))
+
+
+def datetime_unmarshaller(chk):
+    """DateTimeUnmarshaller / TimeUnmarshaller: wherever a value is rebuilt in the target class, every field -
+    tzinfo, fold and microsecond included - is passed through unchanged; numbers are read at UTC."""
+    for clsname, base, fields in (("DateTimeUnmarshaller", datetime.datetime,
+                                   ("year", "month", "day", "hour", "minute", "second", "microsecond", "tzinfo", "fold")),
+                                  ("TimeUnmarshaller", datetime.time, ("hour", "minute", "second", "microsecond", "tzinfo", "fold"))):
+        I = temporal_interp()
+        func = f"{UN}.{clsname}.__call__"
+
+        def mk(I, path, base=base, clsname=clsname):
+            for k in (int, float, str, datetime.date, datetime.datetime, datetime.time, datetime.timedelta):
+                cls_const(k)
+            T = path.fresh("T", Cls)
+            path.assume(sub(T, cls_const(base)))
+            val = path.fresh("val")
+            return [_self(I, path, clsname, T), SV(val)], {}, {"T": T, "val": val}
+        results = I.run_function(func, mk, max_paths=3000)
+        for pi, (path, out, obls, writes, cur) in enumerate(results):
+            _dt_one(chk, func, clsname, fields, pi, path, out, cur)
+        chk.trusted.update(I.assumed_used)
+
+
+def _dt_one(chk, func, clsname, fields, pi, path, out, cur):
+    pid, hy = f"p{pi}", path.hyps + class_axioms()
+    T, val = cur["T"], cur["val"]
+    nm = "a-rebuilt-value-copies-every-field-of-the-parsed-value"
+    nm2 = "numbers-are-read-as-epoch-seconds-at-UTC"
+    if out.kind == "unsupported":
+        for n_ in (nm, nm2):
+            chk.add(Ob(func, n_, pid, hy, z3.BoolVal(False), {"engine": out.value}))
+        return
+    if out.kind != "ret":
+        for n_ in (nm, nm2):
+            chk.add(Ob(func, n_, pid, hy, z3.BoolVal(True), {"trivial": True}))
+        return
+    r = to_val(out.value)
+    # if the result is a `construct[<all fields>](T, ...)` application, its arguments must be the source's own fields
+    d = r.decl().name() if z3.is_app(r) else ""
+    if d.startswith("construct[") and "fold" in d:
+        want = "construct[" + ",".join(sorted(fields)) + "]"
+        ok_shape = d.split("/")[0] == want
+        src = None
+        args = r.children()[1:]
+        goal = z3.BoolVal(ok_shape)
+        if ok_shape:
+            # every argument is attr_<field>(src) for one and the same src
+            srcs = set()
+            conj = []
+            for f_, a in zip(sorted(fields), args):
+                if z3.is_app(a) and a.decl().name() == f"attr_{f_}/1":
+                    srcs.add(a.children()[0].get_id())
+                else:
+                    conj.append(z3.BoolVal(False))
+            goal = z3.And(z3.BoolVal(len(srcs) == 1), *conj) if conj or len(srcs) != 1 else z3.BoolVal(True)
+        chk.add(Ob(func, nm, pid, hy, goal, {"constructor": d}))
+    else:
+        chk.add(Ob(func, nm, pid, hy, z3.BoolVal(True), {"trivial": True, "constructor": d}))
+    # numeric input: the instant comes from fromtimestamp(val, tz=utc)
+    is_num = z3.Or(sub(cls_of(val), cls_const(int)), sub(cls_of(val), cls_const(float)))
+    fts = exp_call("datetime.fromtimestamp", [SV(val)], {"tz": UTC})
+    mentions = fts.get_id() in {t.get_id() for t in _subterms(r)}
+    chk.add(Ob(func, nm2, pid, hy + [is_num, z3.Not(sub(cls_of(val), T))], z3.BoolVal(bool(mentions)), {"result": str(r)[:160]}))
+
+
+def _subterms(t):
+    seen, stack = {}, [t]
+    while stack:
+        x = stack.pop()
+        if x.get_id() in seen:
+            continue
+        seen[x.get_id()] = x
+        stack.extend(x.children())
+    return seen.values()
+
+
+def normalize_number(chk):
+    I = temporal_interp()
+    func = f"{SER}._normalize_number"
+
+    def mk(I, path):
+        for k in (datetime.date, datetime.datetime, datetime.time, datetime.timedelta):
+            cls_const(k)
+        T = path.fresh("T", Cls)
+        num = path.fresh("numval")
+        return [], {"numval": SV(num), "td": SCls(T)}, {"T": T, "num": num}
+    for pi, (path, out, obls, writes, cur) in enumerate(I.run_function(func, mk)):
+        pid, hy = f"p{pi}", path.hyps + class_axioms()
+        T, num = cur["T"], cur["num"]
+        nm1, nm2 = "duration-targets-read-the-number-as-seconds", "instant-targets-read-the-number-as-epoch-seconds-at-UTC"
+        if out.kind != "ret":
+            ok = out.kind == "raise"
+            chk.add(Ob(func, nm1, pid, hy, z3.BoolVal(ok), {"outcome": out.kind}))
+            chk.add(Ob(func, nm2, pid, hy, z3.BoolVal(ok), {"outcome": out.kind}))
+            continue
+        r = to_val(out.value)
+        is_td = sub(T, cls_const(datetime.timedelta))
+        chk.add(Ob(func, nm1, pid, hy + [is_td], r == exp_call("datetime.timedelta", [], {"seconds": SV(num)})))
+        fts = exp_call("datetime.fromtimestamp", [SV(num)], {"tz": UTC})
+        mentions = fts.get_id() in {t.get_id() for t in _subterms(r)}
+        chk.add(Ob(func, nm2, pid, hy + [z3.Not(is_td)], z3.BoolVal(bool(mentions)), {"result": str(r)[:160]}))
+
+
+def text_of_temporals(chk):
+    """String/Bytes unmarshallers turn a temporal input into its ISO text; Number unmarshallers into its unix time."""
+    import numbers
+    for clsname, base, via in (("StringUnmarshaller", str, "serdes.isoformat"), ("BytesUnmarshaller", bytes, "serdes.isoformat"),
+                               ("NumberUnmarshaller", numbers.Number, "serdes.unixtime")):
+        I = temporal_interp()
+        func = f"{UN}.{clsname}.__call__"
+
+        def mk(I, path, base=base, clsname=clsname):
+            for k in (str, bytes, datetime.date, datetime.time, datetime.timedelta):
+                cls_const(k)
+            T = path.fresh("T", Cls)
+            path.assume(sub(T, cls_const(base)))
+            val = path.fresh("val")
+            path.assume(z3.Or(*[sub(cls_of(val), cls_const(k)) for k in (datetime.date, datetime.time, datetime.timedelta)]))
+            # a temporal value is neither bytes-like nor an instance of the text / number target
+            path.assume(rw.decode_f(val) == val)
+            path.assume(z3.Not(sub(cls_of(val), T)))
+            return [_self(I, path, clsname, T), SV(val)], {}, {"T": T, "val": val}
+        for pi, (path, out, obls, writes, cur) in enumerate(I.run_function(func, mk)):
+            pid, hy = f"p{pi}", path.hyps + class_axioms()
+            nm = f"a-temporal-input-goes-through-{via}"
+            if out.kind != "ret":
+                chk.add(Ob(func, nm, pid, hy, z3.BoolVal(out.kind == "raise"), {"outcome": out.kind}))
+                continue
+            r = to_val(out.value)
+            conv = exp_call(via, [SV(cur["val"])])
+            mentions = conv.get_id() in {t.get_id() for t in _subterms(r)}
+            chk.add(Ob(func, nm, pid, hy, z3.BoolVal(bool(mentions)), {"result": str(r)[:160]}))
+
+
+def unixtime(chk):
+    I = temporal_interp()
+    func = f"{SER}.unixtime"
+
+    def mk(I, path):
+        for k in (datetime.date, datetime.datetime, datetime.time, datetime.timedelta):
+            cls_const(k)
+        dt = path.fresh("dt")
+        return [SV(dt)], {}, {"dt": dt}
+    for pi, (path, out, obls, writes, cur) in enumerate(I.run_function(func, mk)):
+        pid, hy = f"p{pi}", path.hyps + class_axioms()
+        dt = cur["dt"]
+        is_td = sub(cls_of(dt), cls_const(datetime.timedelta))
+        is_dtm = sub(cls_of(dt), cls_const(datetime.datetime))
+        is_date = z3.And(sub(cls_of(dt), cls_const(datetime.date)), z3.Not(is_dtm))
+        names = ["timedelta-is-its-total-seconds", "datetime-is-its-own-timestamp", "date-is-midnight-UTC"]
+        if out.kind != "ret":
+            for nm in names:
+                chk.add(Ob(func, nm, pid, hy, z3.BoolVal(out.kind == "raise"), {"outcome": out.kind}))
+            continue
+        r = to_val(out.value)
+        chk.add(Ob(func, names[0], pid, hy + [is_td], r == exp_call("method.total_seconds", [SV(dt)])))
+        chk.add(Ob(func, names[1], pid, hy + [is_dtm, z3.Not(is_td), z3.Not(sub(cls_of(dt), cls_const(datetime.time)))],
+                   r == exp_call("method.timestamp", [SV(dt)])))
+        midnight = exp_call("datetime.datetime", [], {"year": SV(attr("year", dt)), "month": SV(attr("month", dt)),
+                                                      "day": SV(attr("day", dt)), "tzinfo": UTC})
+        chk.add(Ob(func, names[2], pid, hy + [is_date, z3.Not(is_td), z3.Not(sub(cls_of(dt), cls_const(datetime.time)))],
+                   r == exp_call("method.timestamp", [SV(midnight)])))
+
+
 def obligations(chk):
     writer_obligations(chk)
+    timedelta_unmarshaller(chk)
+    datetime_unmarshaller(chk)
+    normalize_number(chk)
+    text_of_temporals(chk)
+    unixtime(chk)
